@@ -12,6 +12,10 @@
   evaluating the linked code — and identified with the model below; the
   interleaving model itself is tied by the correspondence run (harness/props/c19).
 
+  The hand-over (`C19_handover_is_code`, `C19_accepted_in_pipeline`, `C19_full_channel_blocks`):
+  WriteEvent returns only after its message is in the channel, a full channel makes the
+  producer wait, so every accepted event is in channel ∪ hand ∪ buffer ∪ written.
+
   Two statements of the property are FALSE of the code (and of the faithful model):
   `C19_flush_full` (finding close_drops_buffered) and `C19_close_terminates_full`
   (finding close_lost_wakeup). Each is kept as a `def`, refuted on a concrete
@@ -130,6 +134,98 @@ theorem C19_feed_has_no_writer_step (p n : Nat) :
     · exact Or.inr (Or.inl h)
     · exact Or.inr (Or.inr h)
     · exact ih st h
+
+/-! ## the hand-over: accepted ⇒ in the pipeline -/
+
+/-- The model's `publish p` step — accepted and in the channel at once, enabled only while the
+    channel has room — is what `WriteEventWithTimestamp` does: go/ast finds exactly one send on
+    `toBatchMessagesChan` in it (function literals included), as an ordinary statement (not
+    the communication of a `select` clause, so it blocks until the channel takes the message),
+    and no `select` and no `go` statement at all: nothing is tried, nothing is finished in the
+    background, the call returns only after its own send. -/
+theorem C19_handover_is_code :
+    Gen.C19.handoverSends = 1 ∧ Gen.C19.handoverPlainSend = true ∧
+    Gen.C19.handoverSelects = 0 ∧ Gen.C19.handoverGoStmts = 0 := by
+  decide
+
+/-- For every capacity and every schedule: every accepted event is somewhere in the pipeline.
+    The channel holds at most `cap` messages and the batching loop at most one; the number of
+    accepted events is exactly channel + hand + buffer + handed to the write function, also
+    per producer; and the snapshot the model shows at any instant before Close — whatever
+    producers have a call outstanding — satisfies `snapOk`: no more calls have returned than
+    the pipeline accounts for, and a producer waits only on a full channel. -/
+theorem C19_accepted_in_pipeline (c : Cfg) (sched : List Step) :
+    let s := run c init sched
+    s.chan.length ≤ c.cap ∧ s.hand.toList.length ≤ 1 ∧
+    s.pubs.length = (delivered s).length + s.buf.length + s.hand.toList.length + s.chan.length ∧
+    (∀ p, countOf p s.pubs =
+        countOf p (delivered s) + countOf p s.buf + countOf p s.hand.toList + countOf p s.chan) ∧
+    (∀ (np : Nat) (pending : List Nat), s.closed = false →
+        snapOk c.cap (snapOf c s np pending) = true) := by
+  intro s
+  have hinv := (inv_reach c sched).cons
+  have hcap : s.chan.length ≤ c.cap := chan_le_cap_reach c sched
+  have hhand : s.hand.toList.length ≤ 1 := by cases s.hand <;> simp
+  have hlen : s.pubs.length =
+      (delivered s).length + s.buf.length + s.hand.toList.length + s.chan.length := by
+    have := congrArg List.length hinv
+    simp only [List.length_append] at this
+    exact this.symm
+  refine ⟨hcap, hhand, hlen, ?_, ?_⟩
+  · intro p
+    have := congrArg (countOf p) hinv
+    simp only [countOf_append] at this
+    exact this.symm
+  · intro np pending hcl
+    have hsum := sum_counts_le np s.pubs
+    simp only [snapOk, snapOf, Bool.and_eq_true, Bool.or_eq_true, beq_iff_eq]
+    refine ⟨⟨⟨decide_eq_true (by omega), decide_eq_true hcap⟩, decide_eq_true hhand⟩, ?_⟩
+    by_cases hroom : s.chan.length < c.cap
+    · left
+      have : (pending.filter fun p => !enabled c s (.publish p)) = [] := by
+        apply List.filter_eq_nil_iff.mpr
+        intro p _
+        simp [enabled, hcl, hroom]
+      rw [this]; rfl
+    · right; omega
+
+/-- A producer facing a full channel does not move, and moves again exactly when there is room.
+    (1) With the channel at capacity, `publish` steps — of any producers, however often they are
+    scheduled — leave the state unchanged: nothing is accepted, nothing enters the pipeline behind
+    the channel's back.  (2) An enabled `publish` appends the SAME event (producer, its next
+    sequence number) to the publication order and to the back of the channel: accepted = in the
+    channel, atomically, behind everything accepted before.  (3) With the channel open `publish`
+    is enabled iff the channel has room.  (4) One receive of the batching loop makes room. -/
+theorem C19_full_channel_blocks (c : Cfg) :
+    (∀ (s : State) (ps : List Nat), c.cap ≤ s.chan.length → run c s (ps.map Step.publish) = s) ∧
+    (∀ (s : State) (p : Nat), enabled c s (.publish p) = true →
+        (step c s (.publish p)).chan = s.chan ++ [(p, nextSeq s p)] ∧
+        (step c s (.publish p)).pubs = s.pubs ++ [(p, nextSeq s p)]) ∧
+    (∀ (s : State) (p : Nat), s.closed = false →
+        (enabled c s (.publish p) = true ↔ s.chan.length < c.cap)) ∧
+    (∀ (s : State) (p : Nat), s.closed = false → s.chan.length ≤ c.cap →
+        enabled c s .batchRecv = true → enabled c (step c s .batchRecv) (.publish p) = true) := by
+  refine ⟨?_, ?_, ?_, ?_⟩
+  · intro s ps hfull
+    induction ps with
+    | nil => rfl
+    | cons p rest ih =>
+      have hdis : enabled c s (.publish p) = false := by
+        simp only [enabled, Bool.and_eq_false_iff, decide_eq_false_iff_not]
+        right; omega
+      simp only [List.map_cons, run, step, hdis]
+      exact ih
+  · intro s p hen
+    simp [step, hen, fire]
+  · intro s p hcl
+    simp [enabled, hcl]
+  · intro s p hcl hle hen
+    simp only [step, hen, if_true, fire]
+    simp only [enabled, Bool.and_eq_true, beq_iff_eq, Bool.not_eq_true', List.isEmpty_eq_false_iff] at hen
+    have hne : s.chan ≠ [] := hen.2
+    have hpos : 0 < s.chan.length := List.length_pos_iff.mpr hne
+    simp only [enabled, hcl, Bool.not_false, Bool.true_and, decide_eq_true_eq, List.length_tail]
+    omega
 
 /-! ## partition key -/
 
@@ -400,4 +496,17 @@ example :
        .writerSelect, .writerPop,                                    -- waits again
        .close, .batchDone, .broadcast, .writerWake, .writerSelect, .closeReturn]
     s.closeCompleted = true ∧ s.written = [[(0, 0), (1, 0)], [(0, 1), (1, 1), (1, 2)]] ∧ delivered s = s.pubs := by
+  decide
+
+/-- The hand-over theorems are not vacuous: with a channel of two slots, one message in the
+    batching loop's hand and the batching loop held up, the fourth and fifth `publish` do not
+    happen (both producers wait), the snapshot says so and satisfies `snapOk`; an observation
+    in which those calls HAD returned with the channel full is rejected by `snapOk`. -/
+example :
+    let c : Cfg := { codeCfg with cap := 2 }
+    let s := run c init [.publish 0, .batchRecv, .publish 0, .publish 1, .publish 1, .publish 0]
+    s.pubs = [(0, 0), (0, 1), (1, 0)] ∧ s.chan = [(0, 1), (1, 0)] ∧ s.hand = some (0, 0) ∧
+    snapOf c s 2 [0, 1] = { acc := [2, 1], chan := 2, hand := 1, buf := 0, written := 0, blocked := [0, 1] } ∧
+    snapOk c.cap (snapOf c s 2 [0, 1]) = true ∧
+    snapOk 2 { acc := [3, 2], chan := 2, hand := 1, buf := 0, written := 0, blocked := [] } = false := by
   decide
